@@ -60,8 +60,40 @@ class SymPattern:
 
     def sub(self, repl, s, count=0):
         if isinstance(s, SymStr):
-            raise E.Unsupported('re.sub on symbolic string')
+            return self._sym_sub(repl, s, count)
         return self._real.sub(repl, s, count)
+
+    def _sym_sub(self, repl, s, count):
+        """re.sub on a symbolic string with the symbolic matcher: leftmost non-overlapping matches, scanning as CPython 3.7+ does (an empty
+        match is also replaced when it is adjacent to the previous non-empty match); the replacement is a plain string without group
+        references (anything else is unsupported)"""
+        if callable(repl) or not isinstance(repl, str) or '\\' in repl:
+            raise E.Unsupported('re.sub on a symbolic string with a callable / group-referencing replacement')
+        from ..strings import _mk
+        cells = list(SymStr.lift(s).cells)
+        n = len(cells)
+        out = []
+        pos = 0
+        done = 0
+        prev_end = -1
+        while pos <= n:
+            m = self._sym(s, pos, False) if not (count and done >= count) else None
+            if m is None:
+                if pos < n:
+                    out.append(cells[pos])
+                pos += 1
+                continue
+            a, b = m.span()
+            out.extend(repl)
+            done += 1
+            prev_end = b
+            if b == a:
+                if pos < n:
+                    out.append(cells[pos])
+                pos += 1
+            else:
+                pos = b
+        return _mk(out)
 
     def __getattr__(self, name):
         return getattr(self._real, name)
@@ -90,7 +122,7 @@ def fullmatch(pattern, s, flags=0):
 
 def sub(pattern, repl, s, count=0, flags=0):
     if isinstance(s, SymStr):
-        raise E.Unsupported('re.sub on symbolic string')
+        return compile(pattern, flags).sub(repl, s, count)
     if isinstance(pattern, SymPattern):
         pattern = pattern._real
     return _re.sub(pattern, repl, s, count, flags)
